@@ -83,9 +83,37 @@ theorem revoked_by_status_never_verifies (g : Glue) (E : C11.Env) (K : C11.KeyEn
     rw [← this, hrec]; rfl
   · simp [slOf, hbit]
 
+/-- status-list route, verifying node ≠ issuing node: once node `i` holds a refreshed record of the other node's list with the bit
+    set (C11 `Pin`), C01's `Verify` over the inputs read from ANY later C11 world refuses the credential.  Discharged by C11's
+    `cache_sound` + `revoked_forever_remote`. -/
+theorem revoked_on_refreshed_node_never_verifies (g : Glue) (E : C11.Env) (K : C11.KeyEnv) (hE : C11.EnvOK E) (w0 : C11.World)
+    (h0 : C11.WInv E w0) (hc0 : C11.CacheSound w0) (i : Bool) (before after : List C11.Act) (ob iss : String) (p j : Nat)
+    (hpin : C11.Pin (C11.run E K w0 before) i ob iss p j)
+    (c : C01.Cred) (pre post : List C01.Status) (s : C01.Status) (hc : c.statuses = some (pre ++ s :: post))
+    (hpre : ∀ p ∈ pre, skipped p = true) (hty : s.typ = C01.statusListEntryType) (hv : s.entryValid = true)
+    (hpu : s.purpose = "revocation") (hlist : g.urlOf s.listCred = .sl ob iss p) (hidx : s.index = some j)
+    (cfg : C01.Cfg) (P : C01.Crypto) (base : C01.Env) (au cs : Bool) (at_ : Option C01.Time) :
+    C01.verify cfg P (revEnv g E i (C11.run E K w0 (before ++ after)) base) au cs at_ c ≠ .ok () := by
+  have hw1 := ((C11.run_path (K := K) hE before h0).nodes h0).1
+  have hrun : C11.run E K w0 (before ++ after) = C11.run E K (C11.run E K w0 before) after := by
+    simp only [C11.run, List.foldl_append]
+  have hrem := C11.Props.revoked_forever_remote E K hE _ hw1 (C11.Props.cache_sound E K hE w0 h0 hc0 before) i ob iss p j hpin after
+    { id := none, issuer := "", statuses := some [status11 g s] } [] [] (status11 g s) rfl (by simp)
+    hlist (by simp [status11, hty, C01.statusListEntryType]) (by simp [status11, hpu]) (by simp [status11, hidx])
+  rw [← hrun] at hrem
+  obtain ⟨rec, hrec, hpurp, hbit⟩ := status_bridge E i _ (status11 g s) j (relevant_status11 g s hty hpu) (by simp [status11, hidx]) hrem
+  apply verify_not_ok_of_status
+  unfold C01.statusVerdict
+  rw [hc]
+  refine statusVerdictL_revoked _ pre post s (slOf rec) j hpre hty hv hpu hidx ?_ hpurp ?_
+  · show (statusRecord E i _ (g.urlOf s.listCred)).map slOf = some (slOf rec)
+    have : (status11 g s).list = g.urlOf s.listCred := rfl
+    rw [← this, hrec]; rfl
+  · simp [slOf, hbit]
+
 /-- **revoked_credential_never_verifies.**  For every C11 history in which the credential was revoked (`RevokedIn`: a network
-    revocation for its id was accepted, or the issuer's status-list `Revoke` of its entry succeeded — anything before, anything
-    after), C01's verifier over the revocation inputs of the resulting world accepts neither the credential (any `validAt`,
+    revocation for its id was accepted, or the issuer's status-list `Revoke` of its entry succeeded on this node, or this node
+    refreshed the other node's list after the bit was set — anything before, anything after), C01's verifier over the revocation inputs of the resulting world accepts neither the credential (any `validAt`,
     `allowUntrusted`, `checkSignature`) nor any presentation that contains it (`VerifyVP` with credential verification). -/
 theorem revoked_credential_never_verifies (g : Glue) (E : C11.Env) (K : C11.KeyEnv) (hE : C11.EnvOK E) (w0 : C11.World)
     (h0 : C11.WInv E w0) (i : Bool) (c : C01.Cred) (acts : List C11.Act) (hrev : RevokedIn g E K w0 i c acts)
@@ -100,6 +128,9 @@ theorem revoked_credential_never_verifies (g : Glue) (E : C11.Env) (K : C11.KeyE
     | status before after credId e n1 hr pre post s hc hpre hty hv hpu hlist hidx =>
       exact revoked_by_status_never_verifies g E K hE w0 h0 i before after credId e n1 hr c pre post s hc hpre hty hv hpu hlist hidx
         cfg P base au cs at_
+    | refreshed before after hc0 ob iss p j hpin pre post s hc hpre hty hv hpu hlist hidx =>
+      exact revoked_on_refreshed_node_never_verifies g E K hE w0 h0 hc0 i before after ob iss p j hpin c pre post s hc hpre hty hv hpu
+        hlist hidx cfg P base au cs at_
   exact ⟨hv, fun vp hc => verifyVP_not_ok_of_vc hc hv⟩
 
 /-! non-vacuity: C11's own example world, keys and histories; a C01 credential for each route -/
@@ -143,6 +174,21 @@ example : RevokedIn exGlue C11.Props.exEnv C11.Props.exK C11.Props.exWorld false
     have : (C11.revoke C11.Props.exEnv (C11.run C11.Props.exEnv C11.Props.exK C11.Props.exWorld [.entryTx false "did:a" none]).now
       ((C11.run C11.Props.exEnv C11.Props.exK C11.Props.exWorld [.entryTx false "did:a" none]).get false) "did:a#1" C11.Props.exEntry).isOk = true := by decide
     rw [h] at this; cases this
+
+/-- the verifying node is node 1: it downloaded node 0's list while verifying (C11's example history) -/
+example : RevokedIn exGlue C11.Props.exEnv C11.Props.exK C11.Props.exWorld true exCredSL (C11.Props.exHistory ++ []) := by
+  have hpin : C11.Pin (C11.run C11.Props.exEnv C11.Props.exK C11.Props.exWorld C11.Props.exHistory) true "https://n0" "did:a" 1 0 := by
+    have h : (match ((C11.run C11.Props.exEnv C11.Props.exK C11.Props.exWorld C11.Props.exHistory).get true).cred? C11.Props.exList with
+        | some rec => rec.purpose == "revocation" && C11.getB rec.bits 0
+        | none => false) = true := by decide
+    refine ⟨by decide, ?_⟩
+    split at h
+    · rename_i rec hrec
+      simp only [Bool.and_eq_true, beq_iff_eq] at h
+      exact ⟨rec, hrec, h.1, h.2⟩
+    · cases h
+  exact .refreshed _ [] C11.Props.exWorld_cache "https://n0" "did:a" 1 0 hpin [{ id := "x", typ := "Other" }] [] _ rfl (by decide) rfl rfl rfl
+    (by decide) rfl
 
 /-! ## (3) a token is issued only for verified, matching, unrevoked presentations -/
 
@@ -203,6 +249,25 @@ theorem token_issued_only_for_verified_matching_unrevoked (x : Ctx) (cfg2 : C02.
   refine ⟨pre, t, r, post, hevs, hest, ?_⟩
   intro p hp c hc hrev
   exact (revoked_credential_never_verifies x.g x.E11 x.K hE rw0 h0 x.node c _ hrev x.cfg1 x.P x.base true none).2 p.1 hc (hest.1 p hp)
+
+/-- **introspected_claims_are_resolved_fields** (C02 `claims_cannot_override` ∘ C12 `field_values_faithful`).  For the token of
+    an established request (`Established`, as delivered by (3)): every additional claim reported by introspection is the
+    rendering of a value C12 resolved, each such value comes — through a constraint field with that id of the input descriptor
+    the credential is mapped to — from a credential of the map C12's `resolve` read out of the envelope; and in the marshalled
+    RFC 7662 answer no such claim shadows a standard member. -/
+theorem introspected_claims_are_resolved_fields (x : Ctx) (cfg2 : C02.Cfg) (rw : C11.World) (r : Req)
+    (h12 : x.cfg12 = Facts.C12.cfg) (hres : cfg2.reserved = Facts.C02.reservedClaims)
+    (w : C02.World) (now : Nat) (tok : String) (ri : C02.Introspection)
+    (hi : C02.introspect cfg2 w now tok = .ok (some ri)) (hest : Established x cfg2 rw r ri.additional) :
+    (∃ (d : C02.Def) (cm : List (String × C12.Cred)) (vals : C12.Values), C12.resolve x.cfg12 x.decode (x.g.envJ r.pres) [] r.sub = .ok cm ∧ ri.additional = x.g.render vals ∧
+        ∀ e ∈ vals, C12.FieldSource x.re (x.g.pdOf d.key) cm e) ∧
+    (∀ k ∈ Facts.C02.introspectionFields, C02.objGet (C02.marshal Facts.C02.marshalAssignOrder ri) k = ri.std k) := by
+  obtain ⟨_, defs, d, m, cm, vals, _, _, _, hcm, hv, hcl⟩ := hest
+  refine ⟨⟨d, cm, vals, hcm, hcl, ?_⟩, ?_⟩
+  · rw [h12] at hv
+    exact C12.Props.field_values_faithful x.re _ cm vals hv
+  · intro k hk
+    exact C02.Props.claims_cannot_override_today cfg2 hres w now tok ri hi k hk
 
 /-! ## (4) revocation after issue -/
 
